@@ -14,6 +14,8 @@
 (*   C05w  every exported-to file is notice + canonical imports + each     *)
 (*         declaration intact, once, in name order, newline-terminated     *)
 (*   C06l  a declaration once exported is never lost                       *)
+(*   C03i  after an Ok export with dependencies no file of the closure     *)
+(*         imports from a file that does not exist                         *)
 (* Histories are independent, so each record is one initial state.         *)
 (***************************************************************************)
 EXTENDS ExportAbs
@@ -102,7 +104,15 @@ Walk(j, done, bad) ==
                     /\ WellMerged([imports |-> blob.imports, blocks |-> [k \in DOMAIN blob.blocks |-> [id |-> blob.blocks[k]]]], ds)
             THEN <<>> ELSE <<[step |-> j, tag |-> IF \A pr \in { pr \in done : pr[1] \notin hidden } : IsFileAt(after, pr[1]) /\ InFile(Blobs[BlobAt(after, pr[1])], pr[2])
                                                       THEN "C05w_malformed" ELSE "C06l_lost"]>>
-  IN Walk(j + 1, done2, bad \o b1 \o b2 \o b3 \o b4 \o b5)
+      \* C03 along histories: after an Ok export WITH dependencies, every import of every file of the closure names a
+      \* file that exists (whatever was exported before, by whichever entry point)
+      b6 == IF ok /\ c.entry # "export" /\
+               \E pr \in pairs : IsFileAt(after, pr[1]) /\ Blobs[BlobAt(after, pr[1])].ok /\
+                   \E k \in DOMAIN Blobs[BlobAt(after, pr[1])].imports :
+                       LET tgt == Resolve(Front(pr[1]), Blobs[BlobAt(after, pr[1])].imports[k].chars, FALSE) IN
+                       IsErr(tgt) \/ ~IsFileAt(after, tgt)
+            THEN <<[step |-> j, tag |-> "C03i_dangling_import"]>> ELSE <<>>
+  IN Walk(j + 1, done2, bad \o b1 \o b2 \o b3 \o b4 \o b5 \o b6)
 
 Result == Walk(1, {}, <<>>)
 
